@@ -13,6 +13,8 @@ from ..core import Ctx, Violation, HarnessError, rng_for, np_rng, canon, sha_arr
 from ..simfs import SimFS, SimDisk, Patched, is_sim
 from . import formats as F
 
+ISOLATE = "chunk"   # every chunk of consecutive runs starts in a forked child of a pristine process (see hvsrobj.py)
+
 PROPS = ("C07",)
 
 _hv = None
